@@ -64,6 +64,11 @@ class _Gen:
             return self.ext(depth)
         if kind == "bin":
             op = r.choice(["+", "-", "*"])
+            if op == "*":
+                # never multiply two growing locals (x = x * x in a loop squares the
+                # number of digits per iteration and stalls inside CPython's bignum code)
+                right = r.choice([str(r.randint(0, 3)), "True"]) if r.chance(0.5) else self.ext(3)
+                return "(%s * %s)" % (self.expr(depth + 1), right)
             return "(%s %s %s)" % (self.expr(depth + 1), op, self.expr(depth + 1))
         if kind == "cmp":
             n = 2 if r.chance(0.8) else 3
@@ -120,12 +125,18 @@ class _Gen:
         for _ in range(n):
             if self.budget <= 0 and emitted:
                 break
+            mark = len(self.lines)
             done = self.stmt(ind, depth)
+            if self.opts["clean"] and emitted == 0:
+                first = self.lines[mark].strip()
+                if first in ("pass", "break", "continue"):
+                    # keep the arm from being effectively empty
+                    self.lines.insert(mark, "    " * ind + "E(%d)" % self.sid())
             emitted += 1
             if done:
                 break
         if not emitted:
-            self.emit(ind, "pass")
+            self.emit(ind, "E(%d)" % self.sid() if self.opts["clean"] else "pass")
 
     def stmt(self, ind, depth):
         """Emit one statement; return True if control cannot fall through."""
@@ -135,7 +146,7 @@ class _Gen:
         inloop = self.loopdepth > 0
         deep = depth >= o["maxdepth"]
         kind = r.weighted([
-            ("assign", 5), ("aug", 2), ("expr", 2), ("pass", 0.3),
+            ("assign", 5), ("aug", 2), ("expr", 2), ("pass", 0 if o["clean"] else 0.3),
             ("if", 0 if deep else 4), ("while", 0 if deep else 2 * o["loops"]),
             ("for", 0 if deep else 2.5 * o["loops"]),
             ("break", 1.5 if inloop else 0), ("continue", 1 if inloop else 0),
@@ -145,7 +156,9 @@ class _Gen:
             self.emit(ind, "%s = %s" % (r.choice(LOCALS), self.expr()))
         elif kind == "aug":
             self.in_aug += 1
-            self.emit(ind, "%s %s= %s" % (r.choice(LOCALS), r.choice(["+", "-", "*"]), self.expr(1)))
+            op = r.choice(["+", "-", "*"])
+            rhs = self.expr(1) if op != "*" else (str(r.randint(0, 3)) if r.chance(0.4) else self.ext(3))
+            self.emit(ind, "%s %s= %s" % (r.choice(LOCALS), op, rhs))
             self.in_aug -= 1
         elif kind == "expr":
             self.emit(ind, self.ext(0) if r.chance(0.7) else self.expr())
@@ -181,12 +194,14 @@ class _Gen:
             self.loopdepth += 1
             self.block(ind + 1, depth + 1)
             self.loopdepth -= 1
+            # the loop variable stays visible after the loop (it escapes) -- unless
+            # this run keeps for-targets local to their loop body
+            keep = r.chance(o["keep_loopvar"])
+            if pushed and not keep:
+                self.forvars.remove(var)
             if r.chance(0.3):
                 self.emit(ind, "else:")
                 self.block(ind + 1, depth + 1, 2)
-            # the loop variable stays visible after the loop (it escapes)
-            if pushed and not r.chance(o["keep_loopvar"]):
-                self.forvars.remove(var)
         elif kind == "break":
             self.emit(ind, "break")
             return True
@@ -200,6 +215,17 @@ class _Gen:
 
 
 def draw_opts(rng):
+    o = _draw_opts(rng)
+    if rng.chance(0.6):
+        # "clean" shape: none of the shapes the known findings are tied to
+        # (nested and/or, escaping for-target, effectively empty arms), so that
+        # a known finding can never mask a new defect in these runs
+        o.update({"clean": True, "boolop_mode": "toplevel", "keep_loopvar": 0.0,
+                  "for_target_local": False})
+    return o
+
+
+def _draw_opts(rng):
     return {
         "boolop": rng.choice([0.0, 0.5, 1.0, 2.0]),
         "unary": rng.choice([0.0, 1.0]),
@@ -211,6 +237,7 @@ def draw_opts(rng):
         "final_tuple": rng.chance(0.6),
         "boolop_mode": rng.choice(["toplevel", "anywhere"]),
         "for_target_local": rng.chance(0.4),
+        "clean": False,
     }
 
 
